@@ -43,7 +43,7 @@ def cells(tier):
 
 def strategy(cell):
     return S.scenes(cell["A"], cell["B"], families=["deep", "deep", "aligned"],
-                    margin=False, depth_fractions=SHALLOW, max_vertices=18)
+                    margin=False, depth_fractions=SHALLOW, max_vertices=36)
 
 
 def simplex_class(simplex, L):
@@ -161,4 +161,10 @@ def match_known(f, case, known):
     ids = {k["id"] for k in known}
     if "C07-K1" in ids and f.get("data", {}).get("simplex") in BAD_SIMPLEX:
         return "C07-K1"
+    if "C07-K2" in ids and f["bucket"].startswith("epa-exception/AssertionError") or \
+            ("C07-K2" in ids and f["bucket"].startswith("epa-exception-swapped-winding/AssertionError")):
+        def nv(sp):
+            return 8 if sp["kind"] == "box" else len(sp.get("vertices", ()))
+        if nv(case["A"]) + nv(case["B"]) >= 40:
+            return "C07-K2"
     return None
